@@ -291,7 +291,7 @@ def r19_9(ctx):
         if not gs:
             continue
         k0, v0 = gs[0]
-        if not re.match(r"p1\.as_bytes\(\)\.get\(.*\.\.\(.* \+ ('charset'\.len\(\)|7)\)\) matches Some\(_\)", k0):
+        if not re.match(r"p1\.as_bytes\(\)\.get\(.*\.\.\(.* \+ (.*\.len\(\)|7)\)\) matches Some\(_\)", k0):
             bad = "the search for \"charset\" starts with the test %s" % k0[:80]
             continue
         if not v0:
